@@ -6,7 +6,7 @@
 (*   "steps"       C11: items of steps_iter versus the table of the same   *)
 (*                 object (arrival bounds and request bounds)              *)
 (***************************************************************************)
-EXTENDS Arrival
+EXTENDS Arrival, Poisson
 
 EtaChecks == {"returns", "zero", "monotone", "dominates_spec", "exact", "subadditive"}
 
@@ -60,6 +60,27 @@ StepsCheck(c, e) ==
                     /\ \A i \in 1..Len(o.offs) : o.offs[i] + 1 = o.items[i]
 
 StepsFails(e) == {c \in StepsChecks : ~StepsCheck(c, e)}
+
+\* ---- C15: approximated Poisson bound -----------------------------------------
+\* op "poisson": in.rate = <<ln, ld>>, in.eps = <<en, ed>>, in.deltas increasing (first 0); out.n
+PoissonChecks == {"terminates", "zero_at_zero", "monotone", "is_quantile"}
+PoissonCheck(c, e) ==
+    LET o == e.out
+        returned == "n" \in DOMAIN o
+    IN CASE c = "terminates" -> returned
+       [] ~returned -> TRUE
+       [] c = "zero_at_zero" -> \A i \in 1..Len(o.n) : (e.in.deltas[i] = 0) => o.n[i] = 0
+       [] c = "monotone" -> \A i \in 1..(Len(o.n) - 1) : o.n[i] <= o.n[i + 1]
+       [] c = "is_quantile" ->
+            \A i \in 1..Len(o.n) :
+               (e.in.deltas[i] > 0) =>
+                  LET iv == QuantileInterval(e.in.rate[1] * e.in.deltas[i], e.in.rate[2], e.in.eps[1], e.in.eps[2])
+                  IN iv[1] <= o.n[i] /\ o.n[i] <= iv[2]
+PoissonFails(e) == {c \in PoissonChecks : ~PoissonCheck(c, e)}
+
+PoissonPmfFails(e) ==
+    IF "u" \notin DOMAIN e.out THEN {"terminates"}
+    ELSE IF PmfConsistent(e.out.u, e.in.rate[1] * e.in.delta, e.in.rate[2]) THEN {} ELSE {"is_poisson_pmf"}
 
 \* ---- C12: derived curves ---------------------------------------------------
 \* op "curve_trace": in.ev = event instants, in.n = prefix_jobs; out.eta = table 0..H of the inferred curve
